@@ -134,14 +134,14 @@ func (x *inst) key() string {
 	}
 
 	var b strings.Builder
-	fmt.Fprintf(&b, "M live=%s open=%v mode=%s reb=%v dirty=%v cp=%s punch=%v del=%v\n", r.img(m.Live), m.Open, m.Mode, m.Rebuilding, m.Dirty, r.name(diskIf(m.Checkpoint)), types.ShouldPunchHoles, m.Deleted)
+	fmt.Fprintf(&b, "M hazard=%s live=%s open=%v mode=%s reb=%v dirty=%v cp=%s punch=%v del=%v\n", x.hazard, r.img(m.Live), m.Open, m.Mode, m.Rebuilding, m.Dirty, r.name(diskIf(m.Checkpoint)), types.ShouldPunchHoles, m.Deleted)
 	if x.wants("rev") {
 		// the counter's value is part of the state where the counter is the subject (its stored representation has a
 		// length; seed C10-c): merged only when equal
 		fmt.Fprintf(&b, "V rev=%d\n", m.Rev)
 	}
 	for _, s := range m.Chain {
-		fmt.Fprintf(&b, "C %s u=%v r=%v img=%s\n", r.name(disk(s.Name)), s.User, s.Removed, r.img(s.Img))
+		fmt.Fprintf(&b, "C %s u=%v r=%v f=%v/%v img=%s\n", r.name(disk(s.Name)), s.User, s.Removed, s.Folded, s.Deduped, r.img(s.Img))
 	}
 	var orph []string
 	for _, s := range m.Orphans {
